@@ -3,7 +3,7 @@
    as finite maps in canonical form (key-sorted association lists), the
    results of API calls, and their rendering as observables.
    Executable definitions only. *)
-From Coq Require Import List NArith Bool String.
+From Coq Require Import List NArith Bool String Ascii.
 From GoGit Require Import Base.Out.
 Import ListNotations.
 Local Open Scope N_scope.
@@ -110,7 +110,7 @@ Definition st_okb (s : store) : bool :=
    0 = AnyObject in queries *)
 Definition universe := N -> N * N.
 
-Inductive err := ENotFound | EChanged | EObjNotFound.
+Inductive err := ENotFound | EChanged | EObjNotFound | EInvalidType | EEmptyRefFile | EPackedRefsBad.
 
 Inductive res :=
 | ROk
@@ -144,6 +144,8 @@ Inductive op :=
 | ODelLog (n : N).
 
 Definition typ_match (U : universe) (t k : N) : bool := (t =? 0) || (fst (U k) =? t).
+(* SetEncodedObject only takes commits, trees, blobs and tags *)
+Definition valid_typ (U : universe) (k : N) : bool := (1 <=? fst (U k)) && (fst (U k) <=? 4).
 
 Definition st_iter_objs (U : universe) (t : N) (s : store) : list N :=
   filter (typ_match U t) (fm_keys (s_objs s)).
@@ -171,7 +173,9 @@ Definition st_step (U : universe) (s : store) (o : op) : store * res :=
     (s, match fm_get n (s_refs s) with Some v => RRef v | None => RErr ENotFound end)
   | OIterRefs => (s, RRefs (s_refs s))
   | ODelRef n => (st_with_refs s (fm_del n (s_refs s)), ROk)
-  | OSetObj k => (st_with_objs s (fm_set k tt (s_objs s)), RNum k)
+  | OSetObj k =>
+    if valid_typ U k then (st_with_objs s (fm_set k tt (s_objs s)), RNum k)
+    else (s, RErr EInvalidType)
   | OHasObj k => (s, if fm_has k (s_objs s) then ROk else RErr EObjNotFound)
   | OSizeObj k => (s, if fm_has k (s_objs s) then RNum (snd (U k)) else RErr EObjNotFound)
   | OGetObj t k => (s, st_get_obj U t k s)
@@ -228,37 +232,49 @@ Definition isort {A} (le : A -> A -> bool) (l : list A) : list A :=
 Definition ref_le (a b : N * refval) : bool :=
   (fst a <? fst b) || ((fst a =? fst b) && (rv_code (snd a) <=? rv_code (snd b))).
 
-Definition o_refval (v : refval) : out :=
+(* compact observables: printing a Coq string costs about a millisecond per
+   character, so every result is one symbol
+     ok | e<class> | h<k> / s<n> | L(_<name><h|s><k>)* | n<k> | o<k>_<t>_<sz> | I(_<k>)* | Q(_<k>)*   *)
+Definition sN (n : N) : string := dec_of_N n.
+Definition s_refval (v : refval) : string :=
   match v with
-  | RHash h => OList [OSym "h"; ON h]
-  | RSym n => OList [OSym "s"; ON n]
+  | RHash h => String "h"%char (sN h)
+  | RSym n => String "s"%char (sN n)
   end.
+Definition s_join (l : list string) : string :=
+  fold_right (fun x acc => String "_"%char (String.append x acc)) EmptyString l.
 
-Definition o_err (e : err) : out :=
-  OErr (match e with
-        | ENotFound => "ref_not_found"
-        | EChanged => "ref_changed"
-        | EObjNotFound => "obj_not_found"
-        end).
+Definition s_err (e : err) : string :=
+  (match e with
+   | ENotFound => "eNF"
+   | EChanged => "eCH"
+   | EObjNotFound => "eON"
+   | EInvalidType => "eIT"
+   | EEmptyRefFile => "eEF"
+   | EPackedRefsBad => "ePB"
+   end)%string.
 
 Definition o_res (r : res) : out :=
-  match r with
-  | ROk => OOk []
-  | RErr e => o_err e
-  | RRef v => OOk [o_refval v]
-  | RRefs l => OOk (map (fun p => OList [ON (fst p); o_refval (snd p)]) (isort ref_le l))
-  | RNum n => OOk [ON n]
-  | RObj k t sz => OOk [ON k; ON t; ON sz]
-  | RIds l => OOk (map ON (isort N.leb l))
-  | RSeq l => OOk (map ON l)
-  end.
+  OSym (match r with
+        | ROk => "ok"%string
+        | RErr e => s_err e
+        | RRef v => s_refval v
+        | RRefs l => String "L"%char (s_join (map (fun p => String.append (sN (fst p)) (s_refval (snd p))) (isort ref_le l)))
+        | RNum n => String "n"%char (sN n)
+        | RObj k t sz => String "o"%char (String.append (sN k) (String "_"%char (String.append (sN t) (String "_"%char (sN sz)))))
+        | RIds l => String "I"%char (s_join (map sN (isort N.leb l)))
+        | RSeq l => String "Q"%char (s_join (map sN l))
+        end).
+
+Definition o_logs (m : fmap (list N)) : out :=
+  OList (map (fun p => OSym (String "G"%char (String.append (sN (fst p)) (s_join (map sN (snd p)))))) m).
 
 Definition o_store (U : universe) (s : store) : out :=
   OList [ o_res (RRefs (s_refs s));
           o_res (RIds (fm_keys (s_objs s)));
-          ON (s_idx s); ON (s_cfg s);
+          o_res (RNum (s_idx s)); o_res (RNum (s_cfg s));
           o_res (RSeq (s_shallow s));
-          OList (map (fun p => OList (ON (fst p) :: map ON (snd p))) (s_logs s)) ].
+          o_logs (s_logs s) ].
 
 Definition mkU (l : list (N * N)) : universe := fun k => nth (N.to_nat k) l (0, 0).
 
@@ -267,4 +283,4 @@ Definition c19_spec_run (u : list (N * N)) (init ops : list op) : out :=
   let U := mkU u in
   let b := st_init U init in
   let '(s, xs) := spec_run U (spec_begin b) ops in
-  OList [OList (map o_res xs); o_store U (sp_base s); OOk []; o_store U (spec_commit s)].
+  OList [OList (map o_res xs); o_store U (sp_base s); o_res ROk; o_store U (spec_commit s)].
